@@ -4,6 +4,7 @@ import (
 	"encoding/json"
 	"fmt"
 	"hash/fnv"
+	"math"
 	"reflect"
 	"unsafe"
 
@@ -35,6 +36,20 @@ var _ json.Marshaler = Float64{}
 var _ json.Unmarshaler = (*Float32)(nil)
 var _ json.Unmarshaler = (*Float64)(nil)
 
+// compareFloat orders floats totally: NaN equals NaN and sorts before every number.
+func compareFloat[T float32 | float64](x, y T) int {
+	if x != x {
+		if y != y {
+			return 0
+		}
+		return -1
+	}
+	if y != y {
+		return 1
+	}
+	return compare(x, y)
+}
+
 // NewFloat32 returns a new Float32 instance.
 func NewFloat32(value float32) Float32 {
 	return Float32{value: value}
@@ -52,8 +67,14 @@ func (f Float32) Kind() Kind {
 
 // Hash calculates and returns the hash code.
 func (f Float32) Hash() uint64 {
+	value := f.value
+	if value == 0 {
+		value = 0 // -0 equals +0 and must hash alike
+	} else if value != value {
+		value = float32(math.NaN()) // every NaN equals every other NaN
+	}
 	h := fnv.New64a()
-	h.Write((*[4]byte)(unsafe.Pointer(&f.value))[:])
+	h.Write((*[4]byte)(unsafe.Pointer(&value))[:])
 	return h.Sum64()
 }
 
@@ -65,7 +86,7 @@ func (f Float32) Interface() any {
 // Equal checks whether two Float32 instances are equal.
 func (f Float32) Equal(other Value) bool {
 	if o, ok := other.(Float32); ok {
-		return f.value == o.value
+		return compareFloat(f.value, o.value) == 0
 	}
 	return false
 }
@@ -73,7 +94,7 @@ func (f Float32) Equal(other Value) bool {
 // Compare checks whether another Object is equal to this Float32 instance.
 func (f Float32) Compare(other Value) int {
 	if o, ok := other.(Float32); ok {
-		return compare(f.value, o.value)
+		return compareFloat(f.value, o.value)
 	}
 	return compare(f.Kind(), KindOf(other))
 }
@@ -108,8 +129,14 @@ func (f Float64) Kind() Kind {
 
 // Hash calculates and returns the hash code.
 func (f Float64) Hash() uint64 {
+	value := f.value
+	if value == 0 {
+		value = 0 // -0 equals +0 and must hash alike
+	} else if value != value {
+		value = float64(math.NaN()) // every NaN equals every other NaN
+	}
 	h := fnv.New64a()
-	h.Write((*[8]byte)(unsafe.Pointer(&f.value))[:])
+	h.Write((*[8]byte)(unsafe.Pointer(&value))[:])
 	return h.Sum64()
 }
 
@@ -121,7 +148,7 @@ func (f Float64) Interface() any {
 // Equal checks whether two Float64 instances are equal.
 func (f Float64) Equal(other Value) bool {
 	if o, ok := other.(Float64); ok {
-		return f.value == o.value
+		return compareFloat(f.value, o.value) == 0
 	}
 	return false
 }
@@ -129,7 +156,7 @@ func (f Float64) Equal(other Value) bool {
 // Compare checks whether another Object is equal to this Float64 instance.
 func (f Float64) Compare(other Value) int {
 	if o, ok := other.(Float64); ok {
-		return compare(f.value, o.value)
+		return compareFloat(f.value, o.value)
 	}
 	return compare(f.Kind(), KindOf(other))
 }
